@@ -225,7 +225,7 @@ func (ex *Exec) loadPath(v Value, path []PathEl) Value {
 	}
 	n := len(a.e)
 	if n == 0 {
-		unsup("load from empty array")
+		return nil
 	}
 	if el.idx.IsConst() {
 		k := int(el.idx.val)
@@ -547,6 +547,7 @@ func (ex *Exec) strConst(st *State, s string) *SliceV {
 func (ex *Exec) opaqueStr(st *State) *SliceV {
 	n := ex.tb.Fresh("slen", BVSort(64))
 	// non-negative, bounded length
+	ex.restrictions++
 	ex.assume(st, ex.tb.And(ex.tb.Sle(ex.i64(0), n), ex.tb.Sle(n, ex.i64(1<<20))))
 	return &SliceV{str: true, opaque: true, ln: n}
 }
@@ -587,6 +588,7 @@ func (ex *Exec) strEq(st *State, a, b *SliceV) *Term {
 		}
 		// unknown content: fresh boolean constrained by length equality
 		r := tb.Fresh("streq", BoolSort)
+		ex.restrictions++
 		ex.assume(st, tb.Implies(r, tb.Eq(a.ln, b.ln)))
 		return r
 	}
@@ -681,6 +683,23 @@ func (ex *Exec) appendOp(st *State, s, t *SliceV, elem types.Type, site string) 
 	inplace := ex.simp(st, tb.Sle(newLen, s.cp))
 	if s.cp == s.ln {
 		inplace = tb.False
+	}
+	if !inplace.IsConst() {
+		// decide by ranges, then by the solver (pure pruning)
+		bn, ok1 := tb.boundsOf(newLen)
+		bc, ok2 := tb.boundsOf(s.cp)
+		if ok1 && ok2 && bn.hi <= bc.lo {
+			inplace = tb.True
+		} else if ok1 && ok2 && bn.lo > bc.hi {
+			inplace = tb.False
+		} else if ex.feasBranches {
+			pc := ex.pcTerm(st)
+			if ex.solver.CheckQuick(ex.feasMs, pc, tb.Not(inplace)) == "unsat" {
+				inplace = tb.True
+			} else if ex.solver.CheckQuick(ex.feasMs, pc, inplace) == "unsat" {
+				inplace = tb.False
+			}
+		}
 	}
 	res := &SliceV{ln: newLen}
 	if !inplace.IsFalse() {
